@@ -520,6 +520,14 @@ def p_generate_tree(a):
     lb = a["lbn"] / a["lbd"]
     ub = a["ubn"] / a["ubd"]
     t = InExclusionBinTree(items, valueof, upper_bound=ub, lower_bound=lb)
+    for n_first in a.get("abandon", []):
+        # earlier enumerations of the SAME tree object that are abandoned after n_first results (a consumer that breaks out of its loop,
+        # as a search does once it is satisfied): the later, complete enumeration must not depend on them
+        g = t.generate_tree()
+        for _ in range(n_first):
+            if next(g, None) is None:
+                break
+        g.close()
     return {"subsets": [[decode(x) for x in s] for s in t.generate_tree()]}
 
 
